@@ -48,8 +48,12 @@ def _domains(draw, g):
     out = []
     for k in range(draw(st.integers(1, 3))):
         kind = draw(st.sampled_from([0, 1, 2, 2, 3, 3]))
-        if kind == 0 and k > 0:
-            out.append({"pop": "pi*", "T": [], "policy": [], "topo": None})
+        if kind == 0 and (k > 0 or draw(st.booleans())):
+            # the target's own data, possibly under a policy that leaves the diagram as it is (policy variables that are
+            # unconfounded roots): tagged pi*, but a different distribution wherever the policy variable matters
+            free_roots = [n for n in nodes if all(e[1] != n for e in g["di"]) and all(n not in e for e in g["bi"])]
+            pol = draw(gen.subsets(free_roots, 0, len(free_roots))) if free_roots and draw(st.booleans()) else []
+            out.append({"pop": "pi*", "T": [], "policy": pol, "topo": None})
             continue
         tn = draw(gen.subsets(nodes, 0, len(nodes))) if kind != 1 else []
         pol = draw(gen.subsets(nodes, 0, max(0, len(nodes) - 1))) if kind == 3 else []
@@ -280,7 +284,7 @@ def check(case, ignore_regions=False) -> Outcome:
             target = FSCM(g, case["mseed"] + 7919 * fam, max_card=2, clique_mode=bool(fam))
             models = {}
             for k, d in enumerate(doms):
-                models[d["pop"]] = target if d["pop"] == "pi*" else target.derive(set(d["T"]), set(d["policy"]), case["mseed"] + 104729 * (fam + 1) + k)
+                models[d["pop"]] = target if d["pop"] == "pi*" and not d["policy"] else target.derive(set(d["T"]), set(d["policy"]), case["mseed"] + 104729 * (fam + 1) + k)
 
             def provider(pop, do):
                 if pop is None or pop not in models:
